@@ -20,6 +20,8 @@ COW = "alloc::borrow::Cow"
 def norm(t):
     """Drop type annotations from projection elements so that equal places compare equal."""
     if isinstance(t, tuple):
+        if t and t[0] == "sym" and len(t) == 3:
+            return ("sym", t[1])
         if t and t[0] == "field" and len(t) == 3 and isinstance(t[1], int):
             return ("field", t[1])
         if t and t[0] == "downcast" and len(t) == 3:
@@ -28,8 +30,9 @@ def norm(t):
     return t
 
 
-def norm_cons(cons):
-    return {norm(k): v for k, v in cons.items()}
+def norm_cons(cons, rel=False):
+    """Constraint store with normalised keys; the derived ordering facts ('rel', a, b) are left out unless asked for."""
+    return {norm(k): v for k, v in cons.items() if rel or k[0] != "rel"}
 
 
 def find_from_impl(prog, self_adt, arg_prefix):
